@@ -176,6 +176,7 @@ func partA(r *ev.Run, u *Universe) {
 
 	// 5. special boxes
 	floatBox(r, u)
+	wideBox(r)
 	negativeBox(u).Run(r)
 	degenerateBox(u).Run(r)
 }
